@@ -1,13 +1,21 @@
 import NucleoVerif.Model.Matcher
 import NucleoVerif.Spec.Matcher
 import NucleoVerif.Props.C16
+import NucleoVerif.Props.C05
+import NucleoVerif.Lemmas.Subseq
+import NucleoVerif.Lemmas.DPComplete
+import NucleoVerif.Lemmas.Scan
 /-! # C01 — fuzzy matching decides exactly the normalized-subsequence relation
 
 Status of this file: the specification side (`subseqB ⇔ List.Sublist`), the outer dispatch of all
 four entry points (length guards, empty needle, equal-length shortcut), the character-level
-agreement of the ASCII prefilter with normalization and the forward scans are theorems; the
-composition through the prefilter windows and the DP's completeness (`C01_decision`) is being
-built up — what is not yet a theorem is covered by the correspondence/oracle run only. -/
+agreement of the ASCII prefilter with normalization and the forward scans are theorems, and for an
+ASCII haystack with an ASCII needle the whole composition is: `C01_decision_ascii`
+(`fuzzy_match`/`fuzzy_indices`: equal-length shortcut, one-character scan, prefilter window,
+contiguous shortcut, matrix path with the recurrence's completeness, greedy fallback),
+`C01_decision_ascii_greedy`, `C01_entry_points_agree_ascii`.  For a code-point haystack the
+composition is not yet a theorem (pieces: `greedyFwd_isSome`, `setupMatched_eq`, `C01_same_view`);
+it is covered by the correspondence/oracle run. -/
 namespace NucleoVerif
 open Gen Spec
 
@@ -118,5 +126,198 @@ theorem C01_normHay_rep (cfg : Cfg) (h : List Nat) (ha : ∀ c ∈ h, c < 128) :
   apply List.map_congr_left
   intro c hc
   exact C16_norm_rep_independent cfg c (ha c hc)
+
+open DP NucleoVerif.Sub
+
+/-! ## the decision of `fuzzy_match`, ASCII haystack and needle: all paths composed -/
+
+theorem map_eq_self (f : Nat → Nat) : ∀ (l : List Nat), (∀ c ∈ l, f c = c) → l.map f = l := by
+  intro l
+  induction l with
+  | nil => intro _; rfl
+  | cons a t ih => intro hl; simp [hl a (by simp), ih (fun c hc => hl c (by simp [hc]))]
+
+theorem subseqB_single (c : Nat) : ∀ (l : List Nat), subseqB [c] l = true ↔ c ∈ l := by
+  intro l
+  induction l with
+  | nil => simp [subseqB]
+  | cons b bs ih =>
+    simp only [subseqB, List.mem_cons]
+    by_cases e : c = b
+    · simp [e]
+    · simp [e, ih]
+
+theorem windowCols_go_map_ch (cfg : Cfg) (ext : Ext) (hrep : Rep) :
+    ∀ (l : List Nat) (idx : Nat) (prev : CharClass), (windowCols.go cfg ext hrep prev idx l).map (·.ch) = l.map (cnorm cfg hrep) := by
+  intro l
+  induction l with
+  | nil => intro _ _; rfl
+  | cons c cs ih => intro idx prev; simp [windowCols.go, ih]
+
+theorem windowCols_map_ch (cfg : Cfg) (ext : Ext) (hrep : Rep) (h : List Nat) (start end_ : Nat) :
+    (windowCols cfg ext hrep h start end_).map (·.ch) = ((h.drop start).take (end_ - start)).map (cnorm cfg hrep) := by
+  unfold windowCols; exact windowCols_go_map_ch cfg ext hrep _ _ _
+
+/-- equal lengths: the exact comparison decides the subsequence relation (a subsequence of the same length is the
+    whole list) -/
+theorem eqLen_ascii (cfg : Cfg) (ext : Ext) (h : List Nat) (n0 : Nat) (ns : List Nat)
+    (hn : ∀ c ∈ n0 :: ns, normAscii cfg c = c) (heq : (n0 :: ns).length = h.length) :
+    (exactImpl cfg ext .ascii .ascii h (n0 :: ns) 0 h.length).isSome = subseqB (n0 :: ns) (h.map (normAscii cfg)) := by
+  rw [exactImpl_isSome]
+  simp only [Nat.sub_zero, List.drop_zero, List.take_length, heq, decide_true, Bool.true_and]
+  have hnmap : (n0 :: ns).map (normAscii cfg) = n0 :: ns := map_eq_self _ _ hn
+  have heq' : h.length = ns.length + 1 := by simpa using heq.symm
+  have key : ∀ (l : List Nat), l.length = (n0 :: ns).length → (subseqB (n0 :: ns) l = true ↔ l = n0 :: ns) := by
+    intro l hl
+    rw [subseqB_iff_sublist]
+    constructor
+    · intro hs; exact (hs.eq_of_length (by omega)).symm
+    · intro e; rw [e]; exact List.Sublist.refl _
+  by_cases hic : cfg.ignoreCase = true
+  · simp only [hic, if_true, hnmap]
+    have := key (h.map (normAscii cfg)) (by simp; omega)
+    cases hb : (h.map (normAscii cfg) == n0 :: ns) with
+    | true => rw [beq_iff_eq] at hb; exact (this.mpr hb).symm
+    | false =>
+      cases hs : subseqB (n0 :: ns) (h.map (normAscii cfg)) with
+      | false => rfl
+      | true => have := this.mp hs; rw [this] at hb; simp at hb
+  · have hid : h.map (normAscii cfg) = h := by
+      apply map_eq_self
+      intro x _; simp [normAscii, hic]
+    simp only [hic, Bool.false_eq_true, if_false, hid]
+    have := key h (by simp; omega)
+    cases hb : (h == n0 :: ns) with
+    | true => rw [beq_iff_eq] at hb; exact (this.mpr hb).symm
+    | false =>
+      cases hs : subseqB (n0 :: ns) h with
+      | false => rfl
+      | true => have := this.mp hs; rw [this] at hb; simp at hb
+
+
+/-- **`fuzzy_match` / `fuzzy_indices` on an ASCII haystack and ASCII needle succeed exactly when the needle is a
+    subsequence of the normalized haystack** — every configuration, every ASCII haystack, every already
+    normalized needle (any length: the equal-length shortcut, the one-character scan, the prefilter, the
+    contiguous shortcut, the matrix path and the greedy fallback all agree). -/
+theorem C01_decision_ascii (cfg : Cfg) (ext : Ext) (h n : List Nat)
+    (hasc : ∀ x ∈ h, x < 128) (hn : ∀ c ∈ n, normAscii cfg c = c) :
+    (fuzzyMatch cfg ext .ascii .ascii h n).isSome = subseqB n (normHay cfg .ascii h) := by
+  unfold fuzzyMatch normHay
+  show _ = subseqB n (h.map (normAscii cfg))
+  by_cases hlong : n.length > h.length
+  · simp only [hlong, if_true, Option.isSome_none]
+    cases hs : subseqB n (h.map (normAscii cfg)) with
+    | false => rfl
+    | true => have := subseqB_length n _ hs; simp at this; omega
+  · simp only [hlong, if_false]
+    cases n with
+    | nil => simp [subseqB]
+    | cons n0 ns =>
+      simp only [List.isEmpty_cons, Bool.false_eq_true, if_false]
+      by_cases heq : (n0 :: ns).length = h.length
+      · simp only [heq, if_true]
+        exact eqLen_ascii cfg ext h n0 ns hn heq
+      · simp only [heq, if_false]
+        cases ns with
+        | nil =>
+          -- one character
+          simp only
+          unfold substring1Ascii
+          simp only
+          rw [substring1Ascii_go_eq]
+          have hp := scan1_pos cfg (asciiEq cfg.ignoreCase n0) (charClassAscii cfg) h ⟨0, 0, false⟩ cfg.initial 0 (by simp)
+          simp only [ne_eq, not_true_eq_false, false_or] at hp
+          have hc0 := hn n0 (by simp)
+          have hmem : (∃ x ∈ h, asciiEq cfg.ignoreCase n0 x = true) ↔ subseqB [n0] (h.map (normAscii cfg)) = true := by
+            rw [subseqB_single, List.mem_map]
+            constructor
+            · rintro ⟨x, hx, hm⟩; exact ⟨x, hx, (asciiEq_iff cfg n0 x hc0).mp hm⟩
+            · rintro ⟨x, hx, hm⟩; exact ⟨x, hx, (asciiEq_iff cfg n0 x hc0).mpr hm⟩
+          by_cases hz : (scan1 cfg (asciiEq cfg.ignoreCase n0) (charClassAscii cfg) ⟨0, 0, false⟩ cfg.initial 0 h).score = 0
+          · rw [if_pos hz]
+            have : ¬ (∃ x ∈ h, asciiEq cfg.ignoreCase n0 x = true) := fun e => (hp.mpr e) hz
+            cases hs : subseqB [n0] (h.map (normAscii cfg)) with
+            | false => rfl
+            | true => exact absurd (hmem.mpr hs) this
+          · rw [if_neg hz]
+            exact (hmem.mp (hp.mp hz)).symm
+        | cons n1 ns' =>
+          simp only
+          have spec := prefilterAscii_spec cfg h n0 (n1 :: ns') false hn
+          cases hpf : prefilterAscii cfg h (n0 :: n1 :: ns') false with
+          | none => rw [hpf] at spec; simpa using spec.1
+          | some r =>
+            obtain ⟨start, ge, e⟩ := r
+            rw [hpf] at spec
+            obtain ⟨h1, h2, h3, h4, h5⟩ := spec.2 start ge e rfl
+            have htrue : subseqB (n0 :: n1 :: ns') (h.map (normAscii cfg)) = true := by simpa using spec.1.symm
+            rw [htrue]
+            simp only
+            split
+            · rfl
+            · unfold fuzzyOptimal
+              split
+              · -- matrix path
+                rw [optimalDP_isSome, windowCols_map_ch]
+                have hview : ((h.drop start).take (e - start)).map (cnorm cfg .ascii) = ((h.drop start).take (e - start)).map (normAscii cfg) := by
+                  apply List.map_congr_left
+                  intro x hx
+                  exact C16_cnorm_eq_norm cfg .ascii x (fun _ => hasc x ((List.drop_sublist _ _).subset ((List.take_sublist _ _).subset hx)))
+                rw [hview]
+                apply subseqB_of_sublist_hay _ _ _ h5
+                apply List.Sublist.map
+                have : (h.drop start).take (ge - start) = ((h.drop start).take (e - start)).take (ge - start) := by
+                  rw [List.take_take]; congr 1; omega
+                rw [this]
+                exact List.take_sublist _ _
+              · -- greedy fallback: both representations ASCII, always succeeds on the prefiltered window
+                simp [fuzzyGreedyInner]
+
+
+/-- **the greedy entry points decide the same relation** (ASCII haystack and needle) -/
+theorem C01_decision_ascii_greedy (cfg : Cfg) (ext : Ext) (h n : List Nat) (hn : ∀ c ∈ n, normAscii cfg c = c) :
+    (fuzzyGreedy cfg ext .ascii .ascii h n).isSome = subseqB n (normHay cfg .ascii h) := by
+  unfold fuzzyGreedy normHay
+  show _ = subseqB n (h.map (normAscii cfg))
+  by_cases hlong : n.length > h.length
+  · simp only [hlong, if_true, Option.isSome_none]
+    cases hs : subseqB n (h.map (normAscii cfg)) with
+    | false => rfl
+    | true => have := subseqB_length n _ hs; simp at this; omega
+  · simp only [hlong, if_false]
+    cases n with
+    | nil => simp [subseqB]
+    | cons n0 ns =>
+      simp only [List.isEmpty_cons, Bool.false_eq_true, if_false]
+      by_cases heq : (n0 :: ns).length = h.length
+      · simp only [heq, if_true]
+        exact eqLen_ascii cfg ext h n0 ns hn heq
+      · simp only [heq, if_false]
+        have spec := prefilterAscii_spec cfg h n0 ns true hn
+        cases hpf : prefilterAscii cfg h (n0 :: ns) true with
+        | none => rw [hpf] at spec; simpa using spec.1
+        | some r =>
+          obtain ⟨start, ge, e⟩ := r
+          rw [hpf] at spec
+          have htrue : subseqB (n0 :: ns) (h.map (normAscii cfg)) = true := by simpa using spec.1.symm
+          rw [htrue]
+          simp only
+          split
+          · rfl
+          · simp [fuzzyGreedyInner]
+
+/-- **all four entry points agree** on an ASCII haystack and needle (the score-only variants are the same
+    functions with `INDICES = false`) -/
+theorem C01_entry_points_agree_ascii (cfg : Cfg) (ext : Ext) (h n : List Nat)
+    (hasc : ∀ x ∈ h, x < 128) (hn : ∀ c ∈ n, normAscii cfg c = c) :
+    (fuzzyMatch cfg ext .ascii .ascii h n).isSome = (fuzzyGreedy cfg ext .ascii .ascii h n).isSome := by
+  rw [C01_decision_ascii cfg ext h n hasc hn, C01_decision_ascii_greedy cfg ext h n hn]
+
+/-- the statement is not vacuous: "ab" is found in "aXb" and "ba" is not (default configuration, case folding on) -/
+example :
+    let cfg : Cfg := { delims := [47], white := 10, delim := 9, initial := .whitespace, normalize := true, ignoreCase := true, preferPrefix := false }
+    (fuzzyMatch cfg (fun _ => default) .ascii .ascii [97, 88, 66] [97, 98]).isSome = true ∧
+    (fuzzyMatch cfg (fun _ => default) .ascii .ascii [97, 88, 66] [98, 97]).isSome = false := by
+  decide
 
 end NucleoVerif
